@@ -30,6 +30,7 @@ namespace Givaro {
         // -- size-1 steps
         Element tmp;
         mixrad[0] = residu[0];
+        modin(mixrad[0], _primes[0]); // -- any representative of the first residue (the others are reduced below)
         for (unsigned long i=1; i < size; i++)
         {  // - computes pp_i = r_0 + r_1*p_0 + ... + r_{i-1} \prod_{j<i-2} p_j [p_i]
             // Horner scheme
